@@ -125,10 +125,17 @@ def check_call(case, st, real, world_json):
             return None
         return f'raised {e}; the specification says {expected[0]}' + (f' {sorted(expected[1])}' if expected[0] == 'err' else '')
     # returned a value
-    if expected[0] == 'err':
-        # a cache may hide an upstream error only if it holds a value for that key: impossible for raising upstream
-        return f'returned a value where the specification raises {sorted(expected[1])}'
     silent, cached = has_silent_or_cache(case, reach)
+    if expected[0] == 'err':
+        # a cache can hide an upstream error only if it holds a value under the same key although upstream raises now:
+        # (a) the raising part is reached through a Silent argument (exempt by design: the key ignores it);
+        # (b) CheckIds, which is hash-transparent, sits upstream of a cache shared with an evaluation that passed it (finding F10)
+        if cached and silent:
+            return None
+        has_chk = any((case['nodes'][n]['edge'] or {}).get('k') == 'check_ids' for n in reach)
+        if cached and has_chk and set(expected[1]) == {'KeyError'}:
+            return 'HIDDEN-CHECKIDS: a cache hit returned a value although CheckIds upstream rejects the id (F10)'
+        return f'returned a value where the specification raises {sorted(expected[1])}'
     want = canon(val_to_json(expected[1]))
     if canon(r['ok']) != want:
         if cached and (silent or case.get('impure')):
